@@ -1454,3 +1454,27 @@ pub mod crumbs {
         });
     }
 }
+
+/// A Hasher that records the byte stream it is fed (C07: equal values must feed identical streams)
+#[derive(Default)]
+pub struct RecordingHasher {
+    pub bytes: Vec<u8>,
+}
+impl std::hash::Hasher for RecordingHasher {
+    fn finish(&self) -> u64 {
+        let mut h: u64 = 0xcbf29ce484222325;
+        for b in &self.bytes {
+            h ^= *b as u64;
+            h = h.wrapping_mul(0x100000001b3);
+        }
+        h
+    }
+    fn write(&mut self, bytes: &[u8]) {
+        self.bytes.extend_from_slice(bytes);
+    }
+}
+pub fn hash_stream<T: std::hash::Hash>(x: &T) -> Vec<u8> {
+    let mut h = RecordingHasher::default();
+    x.hash(&mut h);
+    h.bytes
+}
